@@ -72,10 +72,15 @@ func makeCase(seed uint64, idx int, known bool) (input string, cfg Config, malfo
 		malformed = true
 		kind = "malformed"
 		cfg.Inline = r.Chance(1, 4)
-		if cfg.Inline {
-			input = g.Malformed(g.InlineList())
-		} else {
-			input = g.Malformed(g.Stylesheet())
+		for {
+			if cfg.Inline {
+				input = g.Malformed(g.InlineList())
+			} else {
+				input = g.Malformed(g.Stylesheet())
+			}
+			if known || !n21Shape(input) {
+				break
+			}
 		}
 	}
 	return
@@ -336,7 +341,7 @@ wait:
 			defer func() { <-sem }()
 			f := cr.verdict.Finding
 			input, out := cr.input, cr.verdict.Output
-			if f.Kind != "panic" && !cr.malformed {
+			if !cr.malformed || f.Kind == "panic" {
 				si, sf := Shrink(cr.input, cr.cfg, *known, f)
 				if sf != nil {
 					input, f = si, sf
